@@ -711,6 +711,61 @@ def check_cmd(case, ctx):
         ctx.fail("C13/config", sub, "moving arguments into --config files changed the output:\n%s\n--- %s\n%s" % ("\n".join(r0.lines()[:4]), r2.exc_key or "", "\n".join(r2.lines()[:4])))
 
 
+def climboth_strategy(tier):
+    """-c and -C on one command line: the result is that of ONE of the two options (file and operation together),
+    never the file of one with the operation of the other."""
+    from .. import gen
+
+    @st.composite
+    def s(draw):
+        spec = draw(gen.dataset(max_inputs=2, min_inputs=2, clim=True, flavor="det", core_max=3, extra_max=0, allow_drop=False,
+                                allow_obsless=False, allow_all_missing=False))
+        return {"spec": spec, "metric": draw(st.sampled_from(["obs", "fcst", "mae", "bias"])), "axis": draw(st.sampled_from(["no", "leadtime", "location"])),
+                "order": draw(st.sampled_from(["Cc", "cC"])), "position": draw(st.sampled_from(["before", "after", "split"]))}
+    return s()
+
+
+def check_climboth(case, ctx):
+    from .. import drive, mat
+    if "order" not in case:
+        return check_cmd(case, ctx)
+    spec = case["spec"]
+    d = os.path.join(ctx.scratch, "cb%d_%d" % (os.getpid(), ctx.evals))
+    os.makedirs(d, exist_ok=True)
+    paths, cp = mat.write_files(spec, d, "text")
+    f0, c2, c1 = paths[0], paths[1], cp
+    tail = ["-m", case["metric"], "-x", case["axis"], "-type", "csv"]
+    both = ["-C", c1, "-c", c2] if case["order"] == "Cc" else ["-c", c2, "-C", c1]
+    if case["position"] == "before":
+        argv = [f0] + both + tail
+    elif case["position"] == "after":
+        argv = [f0] + tail + both
+    else:
+        argv = [f0] + both[:2] + tail + both[2:]
+    r = drive.run(argv)
+    ra = drive.run([f0, "-c", c2] + tail)
+    rb = drive.run([f0, "-C", c1] + tail)
+    ctx.evals += 1
+    ctx.label("clim-both/" + case["order"])
+    for x in (r, ra, rb):
+        if x.exc is not None:
+            ctx.fail("C13/clim-both/exc/" + x.exc_key, case, x.tb[-500:])
+            return
+    if ra.exit not in (None, 0) or rb.exit not in (None, 0):
+        ctx.label("clim-both/single-option-error")
+        return
+    if r.exit not in (None, 0):
+        ctx.label("clim-both/rejected")       # refusing the contradictory pair with an error is a documented outcome
+        if not r.clean_error:
+            ctx.fail("C13/clim-both/no-message", case, "non-zero exit without an Error: message")
+        return
+    if ra.lines() != rb.lines():
+        ctx.nt(("clim-both", case["order"], case["position"], case["metric"], case["axis"], spec["times"], [dd["fcst"] for dd in spec["inputs"]], spec["clim"]["fcst"]))
+    if r.lines() != ra.lines() and r.lines() != rb.lines():
+        ctx.fail("C13/clim-both", case, "%s gives\n%s\nwhich is neither -c alone\n%s\nnor -C alone\n%s"
+                 % (" ".join(os.path.basename(a) if os.sep in a else a for a in argv), "\n".join(r.lines()[:4]), "\n".join(ra.lines()[:4]), "\n".join(rb.lines()[:4])))
+
+
 def campaigns(tier):
     return [
         Enum("vector-grid", vector_items, check_vector, "24x24 start/end values x 10 steps in blocks of 200, three spellings each"),
@@ -718,5 +773,6 @@ def campaigns(tier):
         Enum("reject", reject_items, check_reject, "the documented rejection classes"),
         Hyp("reject-gen", reject_gen_strategy, check_reject, quick=960, thorough=20000, budget_quick=40, budget_thorough=600),
         Hyp("vector-fuzz", fuzz_strategy, check_fuzz, quick=8000, thorough=400000, budget_quick=30, budget_thorough=600),
+        Hyp("clim-both", climboth_strategy, check_climboth, quick=240, thorough=6000, budget_quick=30, budget_thorough=600),
         Hyp("commands", cmd_strategy, check_cmd, quick=2400, thorough=40000, budget_quick=60, budget_thorough=1800),
     ]
